@@ -25,7 +25,6 @@ import (
 
 	"go.lsp.dev/protocol"
 
-	"github.com/juev/hledger-lsp/internal/parser"
 	"github.com/juev/hledger-lsp/internal/server"
 )
 
@@ -337,7 +336,7 @@ func c18HistCase(c *Ctx, ws c18WS, hasRoot bool, set [3]bool, steps []c18Step) m
 	for i, f := range ws.Files {
 		ini = append(ini, J{"name": f.Name, "text": hx(f.Text)})
 		cur := st.current(i, x)
-		j, _ := parser.Parse(cur)
+		j, _ := hxParse(cur)
 		files = append(files, J{"name": f.Name, "text": hx(cur), "tree": journalJ(j)})
 	}
 	for _, s := range steps {
